@@ -54,13 +54,18 @@ class Tokenizer:
                 tok = self._stack.pop()
             else:
                 tok = self._next_raw()
+            if not self._path:
+                self._cache_lines(tok)
             if self.is_blank(tok):
                 continue
 
             self._tokens.append(tok)
-            if not self._path and tok.start[0] not in self._lines:
-                self._lines[tok.start[0]] = tok.line
         return self._tokens[self._index]
+
+    def _cache_lines(self, tok: TokenInfo) -> None:
+        """Remember the source line of every token read (blank and comment lines included)."""
+        if tok.start[0] not in self._lines:
+            self._lines[tok.start[0]] = tok.line
 
     def _next_raw(self) -> TokenInfo:
         """Next token of the underlying generator; running past the end of input is a syntax error."""
@@ -204,7 +209,7 @@ class Tokenizer:
                         if seen == n:
                             break
 
-        return [lines[n] for n in line_numbers]
+        return [lines.get(n, "") for n in line_numbers]
 
     def mark(self) -> Mark:
         return self._index
